@@ -192,10 +192,20 @@ func cmdCheck(args []string) int {
 	if !*noReplay {
 		var vs []*Violation
 		for _, it := range items {
+			if it.r.Job.B.Preempt > 0 {
+				// concurrent counterexample: the schedule is part of it; replayed by the engine itself with all
+				// inputs and scheduling decisions substituted (replay-mode=interp)
+				out, ok := InterpReplay(P, it.r.Job, it.v)
+				rr[it.v] = replayRes{out + " replay-mode=interp", ok}
+				replays++
+				continue
+			}
 			vs = append(vs, it.v)
 		}
-		rr = replayAll(vs)
-		replays = len(vs)
+		for v, x := range replayAll(vs) {
+			rr[v] = x
+		}
+		replays += len(vs)
 	}
 	for _, it := range items {
 		v := it.v
